@@ -265,9 +265,33 @@ def phase2(rep, rng, backend, lab, descs, allT, wit, tk):
         listing(f'after uncache_tasks of {len(drop)} task(s)', {k: v for k, v in new_meta.items() if k not in gone})
 
 
+def mainscript_case(rep, backend, seed):
+    """Task types defined in the running script (__main__; __mp_main__ in a spawned worker): what cached_tasks lists
+    must be what the storage holds, key by key, through a seeded run/bust/uncache history (model inside the script)."""
+    from vlab.mainscript_run import run_mainscript
+    wit = {'mainscript': [backend, seed]}
+    st, x = run_mainscript(backend, seed)
+    if st == 'timeout':
+        rep.inconclusive(f'main-script history ({backend}, seed {seed}): timed out', wit)
+        return
+    if st == 'failed':
+        rep.violation('script-tasks-run-failed', f'main-script history ({backend}): the script failed: {x}', wit)
+        return
+    rep.count('mainscript_histories')
+    rep.case(['mainscript', backend, seed], len(x['obs']['ops']) >= 2)
+    for key, msg in x['bad']:
+        if key in ('cached_tasks-keyset-differs', 'storage-keys-differ'):
+            rep.violation('reconstructed-key-differs', f'task types defined in the main script ({backend}): the keys '
+                          f'cached_tasks reports are not the keys the entries are stored under: {msg}', wit)
+            break
+
+
 def run_shard(rep):
     from vlab.dagcommon import scenario_rng
     cfg = META['tiers'][rep.tier]
+    rep.require('mainscript_histories', 10)
+    for r in range(1 if rep.tier == 'quick' else 3):
+        mainscript_case(rep, ['spawn', 'fork', 'spawn', 'serial'][(rep.shard + r) % 4], rep.seed * 1000 + 700 + rep.shard * 10 + r)
     rep.require('reconstructions_checked', 2000)
     rep.require('cases_with_nested_task_or_enum_in_collection', 100)
     rep.require('reloads_checked', 1000)
@@ -283,4 +307,7 @@ def replay(rep, wit):
     import random
     rep.case('a', True)
     rep.case('b', True)
+    if 'mainscript' in wit['witness']:
+        mainscript_case(rep, *wit['witness']['mainscript'])
+        return
     one(rep, random.Random(0), 0, fixed=wit['witness'])
